@@ -915,18 +915,11 @@ def run(ctx: Ctx) -> Outcome:
     wdescs = [{"n": 8, "vcr_delay": 0.012, "har_delay": 0.15}] if ctx.quick else \
         [{"n": 8, "vcr_delay": 0.012, "har_delay": 0.15}, {"n": 3, "vcr_delay": 0.03, "har_delay": 0.4},
          {"n": 16, "vcr_delay": 0.006, "har_delay": 0.08}, {"n": 2, "vcr_delay": 0.0, "har_delay": 0.0}]
-    wtraces: list = []
-    werr: list = []
+    # a separate process, forked while this one is still single-threaded (the slow runs take seconds of wall time but no CPU)
+    import multiprocessing as mp
 
-    def _wruns():
-        try:
-            for wd in wdescs:
-                wtraces.extend(writer_run(wd))
-        except BaseException as exc:
-            werr.append(exc)
-
-    wthread = threading.Thread(target=_wruns)
-    wthread.start()
+    wpool = mp.get_context("fork").Pool(1)
+    wasync = wpool.map_async(writer_run, wdescs)
     res_w = tlc.require_ok(tlc.run_tlc("ReportsWriter", "ReportsWriter.cfg", workers=4, timeout=600), "ReportsWriter model")
     for inv in res_w.violated:
         out.violations.append(Violation("C16:spec:" + inv, "property %s violated in ReportsWriter.tla" % inv,
@@ -1016,9 +1009,8 @@ def run(ctx: Ctx) -> Outcome:
             out.violations.append(Violation(sig, "%s of %r placed in %s (preserve_bytes=%s, sanitize=%s): %s" % (
                 comp, "".join(map(chr, s)), field, preserve, sanitize, tg), {"kind": "string", "case": c}))
 
-    wthread.join()
-    if werr:
-        raise werr[0]
+    wtraces = [t for ts in wasync.get(timeout=1800) for t in ts]
+    wpool.close()
     wverdicts, states_w = judge_writer(ctx, wtraces)
     out.violations.extend(writer_violations(wtraces, wverdicts))
 
